@@ -1,1 +1,42 @@
 // Kani harnesses compiled as `mod verif_kani` inside /repo/src/commons/storage/ident.rs (cfg(kani) only).
+//
+// Kernels: Ident::{from_bytes, check_bytes, from_str}.
+use super::*;
+
+fn spec_ok(b: &[u8]) -> bool {
+    if b.is_empty() || b[0] == b'.' { return false; }
+    let mut i = 0;
+    while i < b.len() {
+        let c = b[i];
+        let ok = (c >= b'0' && c <= b'9') || (c >= b'a' && c <= b'z') || (c >= b'A' && c <= b'Z')
+            || c == b'+' || c == b'-' || c == b'_' || c == b'.';
+        if !ok { return false; }
+        i += 1;
+    }
+    true
+}
+
+/// `Ident::from_bytes` accepts exactly the non-empty strings over
+/// [A-Za-z0-9+-_.] that do not start with a period (so that "..", "/" and
+/// NUL can never become part of a storage path), for every input up to 8
+/// bytes; it never panics.
+// vk: bound=0..=8 arbitrary bytes
+#[kani::proof]
+#[kani::unwind(10)]
+fn c16d_ident_from_bytes_8() {
+    let buf: [u8; 8] = kani::any();
+    let len: usize = kani::any();
+    kani::assume(len <= 8);
+    let r = Ident::from_bytes(&buf[..len]);
+    assert!(r.is_ok() == spec_ok(&buf[..len]));
+    if let Ok(id) = r {
+        assert!(id.as_bytes().len() == len);
+    }
+    kani::cover!(r.is_ok() && len == 8);
+    kani::cover!(r.is_err() && len == 8);
+    kani::cover!(len == 0);
+}
+
+#[cfg(test)]
+#[path = "/verif/.cache/playback/commons_storage_ident.rs"]
+mod playback;
